@@ -213,23 +213,33 @@ def xargs_runs(ctx):
         sub_cases += [(256 * 1024, [b"{}", b"{}", b"{}", b"{}"], [b"ok", b"y" * 15000, b"after"], None),
                       (256 * 1024, [b"{}"] * 40, [b"ok", b"y" * 2900, b"after"], 124000),
                       (256 * 1024, [b"{}", b"{}", b"{}"], [b"ok", b"y" * rng.choice([15000, 1000, 18000]), b"after"], rng.choice([None, 100000]))]
-        for rl, cmdargs, lines, sopt in sub_cases:
+        sub_cases = [c + (b"{}",) for c in sub_cases]
+        # the replacement string also occurs in the command word, which is run as written: what the line makes of the arguments must
+        # fit, not what it would make of the word (-s exactly at, just below and above the size of the longest command line)
+        word = fw.FUV.encode()
+        for R in (b"fuv", b"u", word[-5:]):            # (none of them occurs in "record", the word that tells the recorder what to do)
+            args = [b"<" + R + b">", R + R]
+            longest = 180
+            exact = len(word) + 1 + len(b"record") + 1 + sum(len(a.replace(R, b"y" * longest)) + 1 for a in args)
+            for sopt in (exact - 1, exact, exact + 40):
+                sub_cases.append((8 << 20, args, [b"ok", b"y" * longest, b"after"], sopt, R))
+        for rl, cmdargs, lines, sopt, R in sub_cases:
             rec = os.path.join(td, "recI")
             if os.path.exists(rec):
                 os.remove(rec)
             env = dict(xc.ENV, FUV_RECORD=rec)
             cmd = [fw.FUV.encode(), b"record"] + cmdargs
-            p = subprocess.run([fw.XARGS, "-I{}"] + (["-s", str(sopt)] if sopt else []) + [c.decode() for c in cmd], input=b"\n".join(lines) + b"\n", env=env, preexec_fn=pre(rl),
+            p = subprocess.run([fw.XARGS, "-I", R.decode()] + (["-s", str(sopt)] if sopt else []) + [c.decode() for c in cmd], input=b"\n".join(lines) + b"\n", env=env, preexec_fn=pre(rl),
                                stdout=subprocess.DEVNULL, stderr=subprocess.PIPE, timeout=300)
             runs = sum(1 for _ in open(rec)) if os.path.exists(rec) else 0
             amax = int(subprocess.run(["getconf", "ARG_MAX"], preexec_fn=pre(rl), capture_output=True).stdout)
             toks = [(l, "h") for l in lines]
-            m = fw.run_lines(fw.FUVM, [xc.model_line(1, None, sopt, False, False, cmd, toks, False, [], replace=True, env=env, arg_max=amax, repl_R=b"{}")], shards=1)[0].split(" ")
-            ctx.count(("substituted", rl, tuple(cmdargs), tuple(len(l) for l in lines), sopt), True, ["substituted-line", "model-exit=%s" % m[0], "s=%s" % sopt])
+            m = fw.run_lines(fw.FUVM, [xc.model_line(1, None, sopt, False, False, cmd, toks, False, [], replace=True, env=env, arg_max=amax, repl_R=R)], shards=1)[0].split(" ")
+            ctx.count(("substituted", rl, tuple(cmdargs), tuple(len(l) for l in lines), sopt, R), True, ["substituted-line", "model-exit=%s" % m[0], "s=%s" % sopt])
             if p.returncode in (126, 127) or b"too long" in p.stderr or (str(p.returncode), runs) != (m[0], len(m) - 1):
-                ctx.violation("xargs -I{}%s CMD %s with lines of %s bytes under stack limit %d: exit %d after %d invocation(s) (%s); model: exit %s after %d"
-                              % (" -s %d" % sopt if sopt else "", cmdargs[:4], [len(l) for l in lines], rl, p.returncode, runs, p.stderr.decode("utf-8", "replace")[:100], m[0], len(m) - 1),
-                              {"property": "C06", "kind": "substituted-line", "arguments": [c.decode() for c in cmdargs], "line_lengths": [len(l) for l in lines],
+                ctx.violation("xargs -I %s%s CMD %s with lines of %s bytes under stack limit %d: exit %d after %d invocation(s) (%s); model: exit %s after %d"
+                              % (R.decode(), " -s %d" % sopt if sopt else "", cmdargs[:4], [len(l) for l in lines], rl, p.returncode, runs, p.stderr.decode("utf-8", "replace")[:100], m[0], len(m) - 1),
+                              {"property": "C06", "kind": "substituted-line", "arguments": [c.decode() for c in cmdargs], "line_lengths": [len(l) for l in lines], "replace": R.decode(), "s": sopt,
                                "stack_limit": rl, "exit": p.returncode, "invocations": runs, "model_exit": m[0], "model_invocations": len(m) - 1,
                                "stderr": p.stderr.decode("utf-8", "replace")[:300],
                                "explain": "the substituted command line must be put to the system limits before it is run (C06_substituted_*): the operating system must never be the one that refuses it"})
